@@ -186,3 +186,5 @@ pub mod sched {
         });
     }
 }
+
+pub use crate::storage::VerifHashMapResult as HashMapResult;
